@@ -43,6 +43,9 @@ def showSample (s : Sample) : String :=
 
 def handle (f : List String) : String :=
   match f with
+  -- a fifth field says which earlier version of the store the same exporter scraped before: what
+  -- is exposed is a function of the store as it is now
+  | ["prom", omitP, ts, store, _] => handle ["prom", omitP, ts, store]
   | ["prom", omitP, ts, store] =>
     match parseStore store with
     | none => "BAD-CASE"
